@@ -86,6 +86,7 @@ def write_files(obj, fmt="text", variant=None, tag=""):
     paths = []
     allin = list(obj["inputs"]) + ([obj["clim"]] if obj.get("hasClim") else [])
     for n, inp in enumerate(allin):
+        inp = with_extra(inp)
         use_nc = fmt == "netcdf" or (fmt == "auto" and mat.has_repeats(inp))
         p = os.path.join(wd, "%sin%d.%s" % (tag, n, "nc" if use_nc else "txt"))
         if os.path.exists(p):
@@ -122,8 +123,35 @@ def make_data(obj, inputs, clim, extra=None):
 
 
 def field_of(name):
+    """field names of the specification -> verif.field objects: obs, fcst, q<level> (a quantile), p<threshold>, any other column name"""
     import verif.field
-    return {"obs": verif.field.Obs, "fcst": verif.field.Fcst}[name]()
+    if name in ("obs", "fcst"):
+        return {"obs": verif.field.Obs, "fcst": verif.field.Fcst}[name]()
+    if name[0] == "q" and mat_isnum(name[1:]):
+        return verif.field.Quantile(float(name[1:]))
+    if name[0] == "p" and mat_isnum(name[1:]):
+        return verif.field.Threshold(float(name[1:]))
+    return verif.field.Other(name)
+
+
+def mat_isnum(s):
+    try:
+        float(s)
+        return True
+    except ValueError:
+        return False
+
+
+def with_extra(inp):
+    """the extra fields of a specification input become columns of the same name (q<level> / p<threshold> / other score columns)"""
+    ex = inp.get("extra")
+    if not ex or not isinstance(ex, dict):
+        return inp
+    out = dict(inp)
+    other = dict(out.get("other") or {})
+    other.update(ex)
+    out["other"] = other
+    return out
 
 
 def do_request(data, r):
